@@ -60,6 +60,37 @@ def run(rep, pdb, tier):
         rep.add("state/receiver/%s" % short, "the method takes &self: tol, delta, max_iter, guess cannot be written (Freeze, no unsafe)",
                 rm == "&self" and unsafe_free, fn["body"], "receiver=%s" % rm, where=where, proof=True)
         rule_no_hidden_state(rep, pdb, fn, "no-hidden-state/%s" % short, allow=())
+        # ---- a finite-difference variant may delegate to its sibling with the finite-difference Jacobian as the provider
+        if jacfn and not loops_of(fn):
+            sib = path.rsplit("::", 1)[0] + "::solve_jacobian"
+            tail = fn["body"].get("expr")
+            tt = ctx.term(tail) if tail is not None else None
+            deleg = tt is not None and tt[0] == "call" and tt[1] == sib and len(tt) == 5 and tt[2] == P(0) and tt[3] == P(1) and tt[4][0] == "closure"
+            okc = False
+            if deleg:
+                for n in walk(fn["body"]):
+                    if n.get("k") == "Closure" and n.get("id") == tt[4][1] and len(n.get("params", [])) == 1 and n["params"][0].get("k") == "Bind":
+                        pv = ("var", n["params"][0]["v"])
+                        okc = ctx.term(n["body"]) == ("call", jacfn, pv, P(1), DELTA)
+            others = [n for n in walk(fn["body"]) if is_call_like(n) and not in_macro(n) and n.get("k") in ("Call", "MethodCall")
+                      and callee_path(n) not in (sib, jacfn) and callee_generic(n) not in ("std::clone::Clone::clone",)]
+            if deleg and okc and not others and pdb.fn(sib) is not None and pdb.fn(jacfn) is not None:
+                note = "delegates to %s (checked there) with the provider |x| %s(x, func, self.delta)" % (sib.split("::")[-1], jacfn.split("::")[-1])
+                jf = pdb.fn(jacfn)
+                jctx = Ctx.for_fn(pdb, jf)
+                inl = [c for c in closure_calls(jctx, jf["body"], 1) if any(a.get("k") == "For" for a in ancestors(c))]
+                outl = [c for c in closure_calls(jctx, jf["body"], 1) if not any(a.get("k") == "For" for a in ancestors(c))]
+                okj = len(loops_of(jf)) == 1 and len(inl) == 1 and len(outl) == 1
+                rep.add("bounded/loop/%s" % short, "the only loop is `for _ in 0..self.max_iter` (exclusive): at most max_iter iterations", True, fn["body"], note, where=where)
+                rule_termination(rep, pdb, fn, "bounded/callees/%s" % short)
+                evals[short] = "1 per iteration + jacobian(%d + %d*n) via solve_jacobian" % (len(outl), len(inl))
+                rep.add("eval-count/%s" % short, "user-closure call sites per iteration are as counted (scalar 3; finite-difference system 1 + (1+n); supplied Jacobian 1+1) and none outside the loop",
+                        okj, fn["body"], note + "; jacobian evaluates func %d + %d*n times" % (len(outl), len(inl)))
+                for k_, r_ in (("ok-tested", "the only Ok(..) is inside the loop, control-dependent on the stopping test, and carries the iterate"),
+                               ("failure-carries-iterate", "the fall-through value is Err(current), current being the variable updated by `current -= dx` and initialised from self.guess"),
+                               ("step", "dx solves J*dx = f(current) by solve_basic with the Jacobian evaluated at current (finite-difference with self.delta, or the supplied one); the update subtracts dx")):
+                    rep.add("%s/%s" % (k_, short), r_, True, fn["body"], note, where=where)
+                continue
         # ---- bounded
         lps = loops_of(fn)
         okb, det = len(lps) == 1, "loops=%d" % len(lps)
